@@ -3,6 +3,28 @@
 import importlib, json, os, sys
 ROOT = os.path.dirname(os.path.dirname(os.path.abspath(__file__)))
 sys.path.insert(0, ROOT)
+
+
+def technique(P):
+    """names what actually decides the property (kept honest: a property whose code has no contract says so)"""
+    if getattr(P, "TECHNIQUE", None):
+        return P.TECHNIQUE
+    nf = len(getattr(P, "C_FUNCS", []) or [])
+    nl = len(getattr(P, "LEMMAS", []) or [])
+    b = [x["name"] + (" on an AddressSanitizer build" if x.get("asan") is True else "") for x in (getattr(P, "BOUNDED", []) or [])]
+    if nf == 0:
+        return ("BOUNDED ONLY - no obligation of the contract technique bears on this property's code (Python, or C not "
+                "yet under contract; no deductive verifier for Python is installed): decided by the bounded stand-in "
+                "%s, a first-principles oracle run on a build of the working tree; labelled bounded, nothing counted as proved"
+                % ", ".join(b))
+    t = ("contract-based deductive verification of %d C functions%s: VCs generated on every run from the clang AST of the "
+         "real source (sidecar contracts, loop invariants, frames, ghost functions), discharged by z3/cvc5; counter-models "
+         "replayed on an ASan harness of the real function, contracts cross-checked by concrete contract testing"
+         % (nf, (" + %d lemma groups" % nl) if nl else ""))
+    if b:
+        t += "; the parts of the property outside those functions are decided only by the bounded stand-in %s (labelled bounded)" % ", ".join(b)
+    return t
+
 props = [json.loads(l) for l in open(os.path.join(ROOT, "properties.jsonl"))]
 NA = {
  "C08": "statistics are floating-point sums accumulated over trees and thread schedules: float arithmetic is uninterpreted in the VC generator, z3's FP theory cannot carry accumulation loops, and the technique is silent on concurrency; no contract within reach states 'equals the naive definition' (DESIGN.md section 8)",
@@ -30,7 +52,7 @@ for p in props:
         "level_claimed": {"category": P.LEVEL, "text": P.LEVEL_TEXT if hasattr(P, "LEVEL_TEXT") else P.EXPLANATION,
                           "design_ref": "DESIGN.md section 6 (%s)" % pid},
         "level_note": getattr(P, "LEVEL_NOTE", "trusted: clang AST dump, z3/cvc5 unsat answers, the VC generator in /verif/vf, libc contracts (malloc/memcpy/...); Rep invariants of tables are preconditions; see evidence.trusted_base / assumptions"),
-        "technique": getattr(P, "TECHNIQUE", "contract-based deductive verification: VCs generated from the clang AST of the real C functions (sidecar contracts, loop invariants, frames), discharged by z3/cvc5; counterexamples replayed on an ASan build of the real function"),
+        "technique": technique(P),
     })
 m = {
  "version": 1,
@@ -40,7 +62,7 @@ m = {
            "source_commits": [], "add_only": True},
  "engines": [
   {"name": "vf", "path": "vf/", "serves_properties": [c["property_id"] for c in checks],
-   "kind_free_text": "E1 cvc: VC generator for C from clang JSON AST + z3/cvc5; E2 pyvc: VC generator for Python from ast; E3 lemmas; E4 rt: concrete replay and bounded stand-ins on a build of /repo's working tree"}],
+   "kind_free_text": "E1 cvc: VC generator for C from clang JSON AST + z3/cvc5; E2 (VC generator for Python) was not built - Python-side properties are bounded only; E3 lemmas; E4 rt: concrete replay and bounded stand-ins on a build of /repo's working tree"}],
  "checks": checks,
  "not_applicable": na,
  "notes": "exit codes: 0 held, 1 VIOLATION (replayed, or no-failing-input-found), 2 undecided, 3 checker failure. Known findings: known_findings.json.",
